@@ -88,6 +88,9 @@ pub struct EncodingBuilder {
     ekey_page_size_kb: u16,
     /// Self-describing `ESpec` for the encoding file itself
     trailing_espec: Option<String>,
+    /// `ESpec` strings that keep their place at the head of the table, in
+    /// this order (the table of the file the builder was made from)
+    espec_order: Vec<String>,
 }
 
 impl EncodingBuilder {
@@ -99,6 +102,7 @@ impl EncodingBuilder {
             ckey_page_size_kb: 4,
             ekey_page_size_kb: 4,
             trailing_espec: None,
+            espec_order: Vec::new(),
         }
     }
 
@@ -131,6 +135,14 @@ impl EncodingBuilder {
     fn build_espec_table(&self) -> ESpecTable {
         let mut table = ESpecTable::default();
         let mut espec_map = HashMap::new();
+
+        // The table of the source file first: its entries keep their indices
+        for espec in &self.espec_order {
+            if !espec_map.contains_key(espec) {
+                let index = table.add(espec.clone());
+                espec_map.insert(espec.clone(), index);
+            }
+        }
 
         // Collect unique ESpec strings
         for entry in &self.ekey_entries {
@@ -469,6 +481,10 @@ impl EncodingBuilder {
         if let Some(ref trailing) = encoding_file.trailing_espec {
             builder = builder.with_trailing_espec(trailing.clone());
         }
+
+        // Keep the ESpec table as it is: an entry's index is part of what the
+        // file says (an all-zero encoding key with index 0 is page padding)
+        builder.espec_order = encoding_file.espec_table.entries.clone();
 
         // Extract CKey entries from pages
         for page in &encoding_file.ckey_pages {
